@@ -333,8 +333,16 @@ def export_roundtrip(binary, workdir, name, steps, cut, entry):
     before = ex[0]["state"]
     # the imported state is read first; then the one field known to be lost (the super-node cursor, see known_findings)
     # is put back by hand, so that the rest of the continuation is still compared
-    ry = run_replica(binary, workdir, name + "i", [{"op": "state"}, {"op": "stores"}, {"op": "setround", "n": before.get("round", -1)}] + rest, "plain",
-                     genesis=exp, initial=before["h"] + 1)
+    try:
+        ry = run_replica(binary, workdir, name + "i", [{"op": "state"}, {"op": "stores"}, {"op": "setround", "n": before.get("round", -1)}] + rest, "plain",
+                         genesis=exp, initial=before["h"] + 1)
+    except MachineryError as e:
+        if "validator set is empty after InitGenesis" in str(e):
+            # the stream had withdrawn all stake from every validator: no chain can be started from that state (x/staking
+            # refuses it), and the one it was exported from could not have continued under a consensus engine either
+            entry["export"] = {"height": before["h"], "skipped": "the exported state has no validator with consensus power"}
+            return []
+        raise
     sx = [r["state"] for r in rx if r["op"] == "state"]
     sy = [r["state"] for r in ry if r["op"] == "state"]
     res = {"height": before["h"], "import_diff": [], "continuation_diff": []}
